@@ -72,6 +72,30 @@ Definition get_token_subst (tsub : list (text * text)) (locals_names : list text
   | None => if existsb (text_eqb n) locals_names then Some (hygienize_name n) else None
   end.
 
+(* ---------- evaluation contexts (src/expr/eval.rs EvalContext): locals, token substitutions, recursion depth ---------- *)
+Record ectx := { e_locals : list (text * value); e_tsub : list (text * text); e_depth : Z }.
+Definition ctx_new : ectx := {| e_locals := []; e_tsub := []; e_depth := 0 |}.
+(* EvalContext::new_deepened: a NEW context (no locals, no token substitutions) one level deeper *)
+Definition new_deepened (c : ectx) : ectx := {| e_locals := []; e_tsub := []; e_depth := e_depth c + 1 |}.
+Definition ctx_set_local (c : ectx) (n : text) (v : value) : ectx :=
+  {| e_locals := (n, v) :: e_locals c; e_tsub := e_tsub c; e_depth := e_depth c |}.
+Definition ctx_set_token_subst (c : ectx) (n : text) (t : text) : ectx :=
+  {| e_locals := e_locals c; e_tsub := (n, t) :: e_tsub c; e_depth := e_depth c |}.
+Definition ctx_token_subst (c : ectx) (n : text) : option text :=
+  get_token_subst (e_tsub c) (map fst (e_locals c)) n.
+(* resolve_instruction_match_inner: the context of a rule's production = new_deepened (context of its arguments), then
+   for every parameter set_local (value) and set_token_subst (argument text) *)
+Fixpoint bind_rule_params (c : ectx) (ps : list (text * value * text)) : ectx :=
+  match ps with
+  | [] => c
+  | (n, v, t) :: r => bind_rule_params (ctx_set_token_subst (ctx_set_local c n v) n t) r
+  end.
+Definition rule_ctx (arg_ctx : ectx) (ps : list (text * value * text)) : ectx := bind_rule_params (new_deepened arg_ctx) ps.
+(* eval_fn: the context of a function body = new_deepened (caller's context), then set_local for every parameter *)
+Fixpoint bind_fn_params (c : ectx) (ps : list (text * value)) : ectx :=
+  match ps with [] => c | (n, v) :: r => bind_fn_params (ctx_set_local c n v) r end.
+Definition fn_ctx (caller : ectx) (ps : list (text * value)) : ectx := bind_fn_params (new_deepened caller) ps.
+
 (* perform_substitutions; note `copied_up_to += subst.end - subst.start` (not `= subst.end`) *)
 Fixpoint perform_substs (get : text -> option text) (t : text) (substs : list asubst) (copied : N) (acc : text) : eres text :=
   match substs with
